@@ -9,7 +9,7 @@ RULE = ('malformed stream: every single-edit corruption (delete/duplicate/substi
         'non-trivial = distinct input the recogniser rejects')
 ASSUMPTIONS = ['C locale', 'hand-written transliteration validated by this differential run', 'the python recogniser encodes the lenient dialect described in the property statement']
 
-def corpus(ctx): return load_corpus(ctx['verif'], 'C03')
+def corpus(ctx): return G.parse_corpus(ctx, 'C03', None)
 def generate(ctx): return G.all_streams(ctx, 3)
 def project(c, out):
     tree, kv = G.fields(out)
